@@ -1,3 +1,1010 @@
-//! placeholder
+//! C16 — nothing breaking the server's announced limits or the static packet rules is sent.
+//!
+//! Bounded-exhaustive comparison of the library's two validation stages against an independent
+//! reference predicate written from the MQTT 5 text.
+//!
+//! Library decision procedure for one user operation (exactly what the client does):
+//!   1. `validate_submission(pkt)` with packet id 0 (the public handles, before the operation is queued);
+//!   2. if Ok: `validate_at_send(pkt', Some(&settings), &connect_options, skip_topic=false, alias=None)`
+//!      where `pkt'` has packet id 1 bound for SUBSCRIBE / UNSUBSCRIBE / QoS>0 PUBLISH (the engine binds
+//!      the id before last-chance validation, protocol.rs service_queue_aux) and the alias resolution is
+//!      the one of the default (null) resolver.
+//!   The operation "would be transmitted" iff both return Ok.
+//!
+//! Reference predicate: `reference()` below; sections 1.5.4, 3.2.2.3, 3.3, 3.8, 3.10, 3.14, 4.7, 4.8.
+//!
+//! Judgement calls (all repeated in the evidence file):
+//!  * MQTT 5 only (both validators are version independent: they never look at the protocol mode).
+//!  * A filter beginning with "$share/" that is not a well-formed shared subscription
+//!    ("$share/", "$share//a", "$share/+/a", "$share/a") is NOT JUDGED when it is a valid ordinary filter
+//!    (the repository treats it as 'valid, not shared', the spec calls it an error).  When it is ALSO
+//!    invalid as an ordinary filter ("$share/a#") both readings agree and it is judged "violates".
+//!  * UNSUBSCRIBE of a wildcard / shared filter while the server announced the feature unavailable is
+//!    NOT JUDGED: the spec only makes the SUBSCRIBE a protocol error (3.2.2.3.11/.13) and is silent about
+//!    UNSUBSCRIBE; the library rejects it, which is harmless.
+//!  * Subscription Identifier set by the user on an outbound PUBLISH violates [MQTT-3.3.4-6]; an
+//!    explicitly EMPTY list puts nothing on the wire and is not judged.
+//!  * Server Reference in a client DISCONNECT: no normative statement forbids it (3.14.2.2.5 only says
+//!    what the server uses it for): conforming when <= 65535 bytes.
+//!  * DUP=1 on a new user PUBLISH violates [MQTT-3.3.1-1]/[MQTT-3.3.1-2].
+//!  * Zero-length topic name: violates (no alias binding exists in this check; aliases are C17).
+//!  * Zero-length response topic violates [MQTT-4.7.3-1]; zero-length content type, correlation data,
+//!    reason string, server reference, user property name/value conform.
+//!  * U+0000 is not in the alphabet (not judged, not run).
+//!  * Publishing to a topic beginning with '$' (incl. "$share/...") conforms to the grammar.
+
 use crate::common::*;
-pub fn run(tier: Tier) -> i32 { let _ = tier; eprintln!("not implemented"); 2 }
+use crate::refcodec;
+use gneiss_mqtt::client::config::ConnectOptions;
+use gneiss_mqtt::client::NegotiatedSettings;
+use gneiss_mqtt::mqtt::QualityOfService;
+use gneiss_mqtt::verif::*;
+use rayon::prelude::*;
+use serde_json::{json, Value};
+use std::collections::{BTreeMap, BTreeSet, HashSet};
+use std::hash::{Hash, Hasher};
+
+const MAX_VBI: u32 = 268_435_455;
+const TOKENS: [&str; 7] = ["a", "b", "/", "+", "#", "$share", "$"];
+const LENS: [usize; 4] = [0, 1, 65535, 65536];
+
+// ------------------------------------------------------------------------------------------------
+// Reference predicate
+// ------------------------------------------------------------------------------------------------
+
+#[derive(Clone, Copy, Debug, PartialEq, Eq, Hash, PartialOrd, Ord)]
+enum Rule {
+    TopicNameEmpty,
+    TopicNameWildcard,
+    TopicNameTooLong,
+    ResponseTopicEmpty,
+    ResponseTopicWildcard,
+    ResponseTopicTooLong,
+    ContentTypeTooLong,
+    CorrelationDataTooLong,
+    UserPropertyNameTooLong,
+    UserPropertyValueTooLong,
+    TopicAliasZero,
+    SubscriptionIdentifierInClientPublish,
+    DupOnNewPublish,
+    QosAboveMaximum,
+    RetainUnavailable,
+    PacketTooLarge,
+    SubscriptionListEmpty,
+    UnsubscribeListEmpty,
+    FilterEmpty,
+    FilterTooLong,
+    FilterMultiLevelWildcardMisplaced,
+    FilterSingleLevelWildcardMisplaced,
+    WildcardUnavailable,
+    SharedUnavailable,
+    NoLocalOnShared,
+    SubscriptionIdentifierZero,
+    SubscriptionIdentifierTooLarge,
+    SubscriptionIdentifierUnavailable,
+    ReasonStringTooLong,
+    ServerReferenceTooLong,
+    DisconnectSessionExpiry,
+}
+
+impl Rule {
+    /// static rule of the specification (true) or a limit announced in CONNACK (false)
+    fn is_static(self) -> bool {
+        !matches!(self, Rule::QosAboveMaximum | Rule::RetainUnavailable | Rule::PacketTooLarge | Rule::WildcardUnavailable | Rule::SharedUnavailable | Rule::SubscriptionIdentifierUnavailable | Rule::DisconnectSessionExpiry)
+    }
+
+    fn name(self) -> String { format!("{:?}", self) }
+
+    /// signature of "the reference says this rule is violated and the library would transmit"
+    fn transmitted_signature(self, op: &str) -> String {
+        match self {
+            Rule::TopicNameEmpty => "publish with empty topic name transmitted".into(),
+            Rule::TopicNameWildcard => "publish to wildcard topic transmitted".into(),
+            Rule::TopicNameTooLong => "publish topic longer than 65535 accepted".into(),
+            Rule::ResponseTopicEmpty => "publish with empty response topic transmitted".into(),
+            Rule::ResponseTopicWildcard => "publish with wildcard response topic transmitted".into(),
+            Rule::ResponseTopicTooLong => "response topic longer than 65535 accepted".into(),
+            Rule::ContentTypeTooLong => "content type longer than 65535 accepted".into(),
+            Rule::CorrelationDataTooLong => "correlation data longer than 65535 accepted".into(),
+            Rule::UserPropertyNameTooLong => "user property name longer than 65535 accepted".into(),
+            Rule::UserPropertyValueTooLong => "user property value longer than 65535 accepted".into(),
+            Rule::TopicAliasZero => "topic alias 0 accepted".into(),
+            Rule::SubscriptionIdentifierInClientPublish => "publish with subscription identifier transmitted by client".into(),
+            Rule::DupOnNewPublish => "publish with DUP flag on first transmission accepted".into(),
+            Rule::QosAboveMaximum => "qos above maximum transmitted".into(),
+            Rule::RetainUnavailable => "retain although unavailable".into(),
+            Rule::PacketTooLarge => format!("packet larger than server maximum packet size transmitted ({})", op),
+            Rule::SubscriptionListEmpty => "empty subscription list accepted".into(),
+            Rule::UnsubscribeListEmpty => "empty unsubscribe filter list accepted".into(),
+            Rule::FilterEmpty => format!("{} with empty topic filter transmitted", op),
+            Rule::FilterTooLong => format!("{} topic filter longer than 65535 accepted", op),
+            Rule::FilterMultiLevelWildcardMisplaced => format!("{} with '#' not alone in the last level transmitted", op),
+            Rule::FilterSingleLevelWildcardMisplaced => format!("{} with '+' not occupying a whole level transmitted", op),
+            Rule::WildcardUnavailable => "wildcard filter although unavailable".into(),
+            Rule::SharedUnavailable => "shared subscription although unavailable".into(),
+            Rule::NoLocalOnShared => "no_local on shared subscription transmitted".into(),
+            Rule::SubscriptionIdentifierZero => "subscription identifier 0 accepted".into(),
+            Rule::SubscriptionIdentifierTooLarge => "subscription identifier above 268435455 accepted".into(),
+            Rule::SubscriptionIdentifierUnavailable => "subscribe with subscription identifier although server announced unavailable".into(),
+            Rule::ReasonStringTooLong => "disconnect reason string longer than 65535 accepted".into(),
+            Rule::ServerReferenceTooLong => "disconnect server reference longer than 65535 accepted".into(),
+            Rule::DisconnectSessionExpiry => "disconnect with non-zero session expiry although CONNECT session expiry was zero transmitted".into(),
+        }
+    }
+}
+
+/// 4.7.1 / 4.7.3: ordinary topic filter grammar.  Empty result = valid.
+fn plain_filter_rules(filter: &str, out: &mut BTreeSet<Rule>) -> bool {
+    let before = out.len();
+    if filter.is_empty() { out.insert(Rule::FilterEmpty); return false; }
+    if filter.len() > 65535 { out.insert(Rule::FilterTooLong); }
+    let levels = filter.split('/').count();
+    for (index, level) in filter.split('/').enumerate() {
+        if level.contains('#') && (level != "#" || index + 1 != levels) { out.insert(Rule::FilterMultiLevelWildcardMisplaced); }
+        if level.contains('+') && level != "+" { out.insert(Rule::FilterSingleLevelWildcardMisplaced); }
+    }
+    out.len() == before
+}
+
+fn plain_filter_valid(filter: &str) -> bool {
+    let mut scratch = BTreeSet::new();
+    plain_filter_rules(filter, &mut scratch)
+}
+
+#[derive(Clone, Copy, Debug, PartialEq, Eq, Hash)]
+enum Share { NotShared, WellFormed, Malformed }
+
+/// 4.8.2: $share/{ShareName}/{filter}
+fn share_kind(filter: &str) -> Share {
+    let Some(rest) = filter.strip_prefix("$share/") else { return Share::NotShared; };
+    let Some(slash) = rest.find('/') else { return Share::Malformed; };
+    let (name, tail) = (&rest[..slash], &rest[slash + 1..]);
+    if name.is_empty() || name.contains('+') || name.contains('#') { return Share::Malformed; }
+    if tail.is_empty() || !plain_filter_valid(tail) { return Share::Malformed; }
+    Share::WellFormed
+}
+
+fn has_wildcard_level(filter: &str) -> bool {
+    filter.split('/').any(|level| level == "+" || level == "#")
+}
+
+struct FilterVerdict { ambiguous_share: bool, wildcard: bool, shared: bool }
+
+/// grammar rules of one filter go to `out`; the returned flags are meaningful only when no rule fired
+fn judge_filter(filter: &str, out: &mut BTreeSet<Rule>) -> FilterVerdict {
+    let plain_valid = plain_filter_rules(filter, out);
+    let share = share_kind(filter);
+    if !plain_valid { return FilterVerdict { ambiguous_share: false, wildcard: false, shared: false }; }
+    match share {
+        Share::Malformed => FilterVerdict { ambiguous_share: true, wildcard: false, shared: false },
+        Share::WellFormed => {
+            let rest = &filter["$share/".len()..];
+            let tail = &rest[rest.find('/').unwrap() + 1..];
+            FilterVerdict { ambiguous_share: false, wildcard: has_wildcard_level(tail), shared: true }
+        }
+        Share::NotShared => FilterVerdict { ambiguous_share: false, wildcard: has_wildcard_level(filter), shared: false },
+    }
+}
+
+fn judge_user_properties(properties: &VProps, out: &mut BTreeSet<Rule>) {
+    if let Some(list) = properties {
+        for (name, value) in list {
+            if name.len() > 65535 { out.insert(Rule::UserPropertyNameTooLong); }
+            if value.len() > 65535 { out.insert(Rule::UserPropertyValueTooLong); }
+        }
+    }
+}
+
+#[derive(Clone, Copy, Debug, PartialEq, Eq, Hash)]
+struct Caps {
+    max_qos: u8,
+    retain: bool,
+    wildcard: bool,
+    shared: bool,
+    subid: bool,
+    max_packet_size: u32,
+}
+
+const ALL_CAPS: Caps = Caps { max_qos: 2, retain: true, wildcard: true, shared: true, subid: true, max_packet_size: MAX_VBI };
+
+#[derive(Clone, Debug, PartialEq, Eq)]
+enum Verdict {
+    Violates(Vec<Rule>),
+    Conforms,
+    NotJudged(&'static str),
+}
+
+struct Case {
+    family: &'static str,
+    /// coarse class used in "valid ... rejected" signatures; None = derived from the packet
+    label: Option<&'static str>,
+    pkt: Pkt,
+    caps: Caps,
+    /// session expiry of the CONNECT options (index into Env::connect)
+    connect_se: Option<u32>,
+    pre_not_judged: Option<&'static str>,
+    /// number of bytes this packet (packet id bound) occupies on the wire; set by the families that use
+    /// a maximum packet size below the protocol maximum (see `size_family` for how it is measured)
+    wire_len: Option<u32>,
+}
+
+fn op_name(pkt: &Pkt) -> &'static str {
+    match pkt { Pkt::Publish(_) => "PUBLISH", Pkt::Subscribe(_) => "SUBSCRIBE", Pkt::Unsubscribe(_) => "UNSUBSCRIBE", Pkt::Disconnect(_) => "DISCONNECT", _ => "OTHER" }
+}
+
+/// the packet as the engine sees it at last-chance validation
+fn bound(pkt: &Pkt) -> Pkt {
+    let mut copy = pkt.clone();
+    match &mut copy {
+        Pkt::Publish(p) => { if p.qos > 0 { p.packet_id = 1; } }
+        Pkt::Subscribe(s) => { s.packet_id = 1; }
+        Pkt::Unsubscribe(u) => { u.packet_id = 1; }
+        _ => {}
+    }
+    copy
+}
+
+fn reference(case: &Case) -> Verdict {
+    if let Some(reason) = case.pre_not_judged { return Verdict::NotJudged(reason); }
+    let caps = &case.caps;
+    let mut rules: BTreeSet<Rule> = BTreeSet::new();
+    let mut not_judged: Option<&'static str> = None;
+
+    match &case.pkt {
+        Pkt::Publish(p) => {
+            // 4.7.3, 3.3.2.1
+            if p.topic.is_empty() { rules.insert(Rule::TopicNameEmpty); }
+            if p.topic.contains('+') || p.topic.contains('#') { rules.insert(Rule::TopicNameWildcard); }
+            if p.topic.len() > 65535 { rules.insert(Rule::TopicNameTooLong); }
+            // 3.3.2.3.5
+            if let Some(response_topic) = &p.response_topic {
+                if response_topic.is_empty() { rules.insert(Rule::ResponseTopicEmpty); }
+                if response_topic.contains('+') || response_topic.contains('#') { rules.insert(Rule::ResponseTopicWildcard); }
+                if response_topic.len() > 65535 { rules.insert(Rule::ResponseTopicTooLong); }
+            }
+            if p.content_type.as_ref().map(|s| s.len() > 65535).unwrap_or(false) { rules.insert(Rule::ContentTypeTooLong); }
+            if p.correlation_data.as_ref().map(|s| s.len() > 65535).unwrap_or(false) { rules.insert(Rule::CorrelationDataTooLong); }
+            judge_user_properties(&p.user_properties, &mut rules);
+            // 3.3.2.3.4
+            if p.topic_alias == Some(0) { rules.insert(Rule::TopicAliasZero); }
+            // 3.3.4 [MQTT-3.3.4-6]
+            if let Some(identifiers) = &p.subscription_identifiers {
+                if identifiers.is_empty() { not_judged = Some("explicitly empty subscription identifier list on a publish (nothing on the wire)"); } else { rules.insert(Rule::SubscriptionIdentifierInClientPublish); }
+            }
+            // 3.3.1.1
+            if p.dup { rules.insert(Rule::DupOnNewPublish); }
+            // 3.2.2.3.4, 3.2.2.3.5
+            if p.qos > caps.max_qos { rules.insert(Rule::QosAboveMaximum); }
+            if p.retain && !caps.retain { rules.insert(Rule::RetainUnavailable); }
+        }
+        Pkt::Subscribe(s) => {
+            if s.subscriptions.is_empty() { rules.insert(Rule::SubscriptionListEmpty); }
+            for subscription in &s.subscriptions {
+                let verdict = judge_filter(&subscription.topic_filter, &mut rules);
+                if verdict.ambiguous_share { not_judged = Some("filter begins with $share/ but is not a well-formed shared subscription"); }
+                if verdict.wildcard && !caps.wildcard { rules.insert(Rule::WildcardUnavailable); }
+                if verdict.shared && !caps.shared { rules.insert(Rule::SharedUnavailable); }
+                if verdict.shared && subscription.no_local { rules.insert(Rule::NoLocalOnShared); }
+            }
+            // 3.8.2.1.2, 3.2.2.3.12
+            if let Some(identifier) = s.subscription_identifier {
+                if identifier == 0 { rules.insert(Rule::SubscriptionIdentifierZero); }
+                if identifier > MAX_VBI { rules.insert(Rule::SubscriptionIdentifierTooLarge); }
+                if !caps.subid { rules.insert(Rule::SubscriptionIdentifierUnavailable); }
+            }
+            judge_user_properties(&s.user_properties, &mut rules);
+        }
+        Pkt::Unsubscribe(u) => {
+            if u.topic_filters.is_empty() { rules.insert(Rule::UnsubscribeListEmpty); }
+            for filter in &u.topic_filters {
+                let verdict = judge_filter(filter, &mut rules);
+                if verdict.ambiguous_share { not_judged = Some("filter begins with $share/ but is not a well-formed shared subscription"); }
+                if (verdict.wildcard && !caps.wildcard) || (verdict.shared && !caps.shared) {
+                    if not_judged.is_none() { not_judged = Some("unsubscribe of a wildcard/shared filter while the server announced the feature unavailable (spec silent)"); }
+                }
+            }
+            judge_user_properties(&u.user_properties, &mut rules);
+        }
+        Pkt::Disconnect(d) => {
+            if d.reason_string.as_ref().map(|s| s.len() > 65535).unwrap_or(false) { rules.insert(Rule::ReasonStringTooLong); }
+            if d.server_reference.as_ref().map(|s| s.len() > 65535).unwrap_or(false) { rules.insert(Rule::ServerReferenceTooLong); }
+            judge_user_properties(&d.user_properties, &mut rules);
+            // 3.14.2.2.2
+            if case.connect_se.unwrap_or(0) == 0 && d.session_expiry.unwrap_or(0) != 0 { rules.insert(Rule::DisconnectSessionExpiry); }
+        }
+        _ => { return Verdict::NotJudged("not a user operation"); }
+    }
+
+    // 3.2.2.3.6: only packets that are otherwise well-formed are measured (the families that use a
+    // maximum packet size below the protocol maximum contain only such packets)
+    if rules.is_empty() && not_judged.is_none() && caps.max_packet_size < MAX_VBI {
+        match case.wire_len {
+            Some(len) => { if len > caps.max_packet_size { rules.insert(Rule::PacketTooLarge); } }
+            None => { return Verdict::NotJudged("encoded size of the packet not measured"); }
+        }
+    }
+
+    if !rules.is_empty() { return Verdict::Violates(rules.into_iter().collect()); }
+    if let Some(reason) = not_judged { return Verdict::NotJudged(reason); }
+    Verdict::Conforms
+}
+
+// ------------------------------------------------------------------------------------------------
+// Library decision procedure
+// ------------------------------------------------------------------------------------------------
+
+#[derive(Clone, Debug, PartialEq, Eq, Hash)]
+enum Outcome {
+    RejectedAtSubmission(ErrKind),
+    RejectedAtSend(ErrKind),
+    Accepted,
+    Panic(&'static str, String),
+}
+
+impl Outcome {
+    fn stage(&self) -> &'static str {
+        match self { Outcome::RejectedAtSubmission(_) => "rejected_at_submission", Outcome::RejectedAtSend(_) => "rejected_at_send", Outcome::Accepted => "accepted", Outcome::Panic(..) => "panic" }
+    }
+    fn text(&self) -> String {
+        match self {
+            Outcome::RejectedAtSubmission(kind) => format!("rejected at submission ({:?})", kind),
+            Outcome::RejectedAtSend(kind) => format!("rejected at send time ({:?})", kind),
+            Outcome::Accepted => "accepted by both stages (would be transmitted)".into(),
+            Outcome::Panic(function, message) => format!("panic in {}: {}", function, message),
+        }
+    }
+}
+
+struct Env {
+    /// connect options with session expiry None / Some(0) / Some(10)
+    connect: [ConnectOptions; 3],
+}
+
+impl Env {
+    fn new() -> Env {
+        Env { connect: [
+            ConnectOptions::builder().build(),
+            ConnectOptions::builder().with_session_expiry_interval_seconds(0).build(),
+            ConnectOptions::builder().with_session_expiry_interval_seconds(10).build(),
+        ] }
+    }
+    fn connect_for(&self, session_expiry: Option<u32>) -> &ConnectOptions {
+        match session_expiry { None => &self.connect[0], Some(0) => &self.connect[1], _ => &self.connect[2] }
+    }
+}
+
+fn settings_of(caps: &Caps) -> NegotiatedSettings {
+    NegotiatedSettings {
+        maximum_qos: QualityOfService::try_from(caps.max_qos).unwrap_or(QualityOfService::ExactlyOnce),
+        session_expiry_interval: 0,
+        receive_maximum_from_server: 65535,
+        maximum_packet_size_to_server: caps.max_packet_size,
+        topic_alias_maximum_to_server: 65535,
+        server_keep_alive: 0,
+        retain_available: caps.retain,
+        wildcard_subscriptions_available: caps.wildcard,
+        subscription_identifiers_available: caps.subid,
+        shared_subscriptions_available: caps.shared,
+        rejoined_session: false,
+        client_id: "c16".to_string(),
+    }
+}
+
+fn library(case: &Case, env: &Env) -> Outcome {
+    match guarded(|| validate_submission(&case.pkt)) {
+        Err(panic) => return Outcome::Panic("validate_submission", panic),
+        Ok(Err(kind)) => return Outcome::RejectedAtSubmission(kind),
+        Ok(Ok(())) => {}
+    }
+    let at_send = bound(&case.pkt);
+    let settings = settings_of(&case.caps);
+    match guarded(|| validate_at_send(&at_send, Some(&settings), env.connect_for(case.connect_se), false, None)) {
+        Err(panic) => Outcome::Panic("validate_at_send", panic),
+        Ok(Err(kind)) => Outcome::RejectedAtSend(kind),
+        Ok(Ok(())) => Outcome::Accepted,
+    }
+}
+
+// ------------------------------------------------------------------------------------------------
+// Case description (replay / samples)
+// ------------------------------------------------------------------------------------------------
+
+fn js(text: &str) -> Value {
+    if text.len() <= 48 { json!(text) } else { json!({"len": text.len(), "repeat_of": text.chars().next().map(|c| c.to_string())}) }
+}
+
+fn jb(bytes: &[u8]) -> Value {
+    if bytes.len() <= 16 { json!(bytes) } else { json!({"len": bytes.len(), "repeat_of_byte": bytes[0]}) }
+}
+
+fn jprops(properties: &VProps) -> Value {
+    match properties { None => Value::Null, Some(list) => Value::Array(list.iter().map(|(n, v)| json!({"name": js(n), "value": js(v)})).collect()) }
+}
+
+fn describe_pkt(pkt: &Pkt) -> Value {
+    match pkt {
+        Pkt::Publish(p) => json!({"type": "PUBLISH", "topic": js(&p.topic), "qos": p.qos, "retain": p.retain, "dup": p.dup,
+            "payload": p.payload.as_ref().map(|b| jb(b)), "payload_format": p.payload_format, "message_expiry": p.message_expiry, "topic_alias": p.topic_alias,
+            "response_topic": p.response_topic.as_ref().map(|s| js(s)), "correlation_data": p.correlation_data.as_ref().map(|b| jb(b)),
+            "subscription_identifiers": p.subscription_identifiers, "content_type": p.content_type.as_ref().map(|s| js(s)), "user_properties": jprops(&p.user_properties)}),
+        Pkt::Subscribe(s) => json!({"type": "SUBSCRIBE", "subscription_identifier": s.subscription_identifier, "user_properties": jprops(&s.user_properties),
+            "subscriptions": s.subscriptions.iter().map(|x| json!({"filter": js(&x.topic_filter), "qos": x.qos, "no_local": x.no_local, "retain_as_published": x.retain_as_published, "retain_handling": x.retain_handling})).collect::<Vec<_>>()}),
+        Pkt::Unsubscribe(u) => json!({"type": "UNSUBSCRIBE", "filters": u.topic_filters.iter().map(|f| js(f)).collect::<Vec<_>>(), "user_properties": jprops(&u.user_properties)}),
+        Pkt::Disconnect(d) => json!({"type": "DISCONNECT", "reason_code": d.reason_code, "session_expiry": d.session_expiry, "reason_string": d.reason_string.as_ref().map(|s| js(s)),
+            "server_reference": d.server_reference.as_ref().map(|s| js(s)), "user_properties": jprops(&d.user_properties)}),
+        _ => json!("?"),
+    }
+}
+
+fn describe(case: &Case) -> Value {
+    json!({
+        "family": case.family,
+        "packet": describe_pkt(&case.pkt),
+        "connack": {"maximum_qos": case.caps.max_qos, "retain_available": case.caps.retain, "wildcard_subscriptions_available": case.caps.wildcard,
+            "shared_subscriptions_available": case.caps.shared, "subscription_identifiers_available": case.caps.subid, "maximum_packet_size": case.caps.max_packet_size},
+        "connect_session_expiry": case.connect_se,
+    })
+}
+
+fn weight(pkt: &Pkt) -> usize {
+    fn props(p: &VProps) -> usize { p.as_ref().map(|l| 4 + l.iter().map(|(n, v)| 4 + n.len() + v.len()).sum::<usize>()).unwrap_or(0) }
+    fn opt(s: &Option<String>) -> usize { s.as_ref().map(|s| 4 + s.len()).unwrap_or(0) }
+    match pkt {
+        Pkt::Publish(p) => p.topic.len() + opt(&p.response_topic) + opt(&p.content_type) + p.correlation_data.as_ref().map(|b| 4 + b.len()).unwrap_or(0) + p.payload.as_ref().map(|b| 1 + b.len()).unwrap_or(0)
+            + props(&p.user_properties) + p.qos as usize + p.retain as usize + p.dup as usize + p.topic_alias.map(|_| 2).unwrap_or(0) + p.payload_format.map(|_| 1).unwrap_or(0) + p.message_expiry.map(|_| 1).unwrap_or(0) + p.subscription_identifiers.as_ref().map(|v| 2 + v.len()).unwrap_or(0),
+        Pkt::Subscribe(s) => s.subscriptions.iter().map(|x| 4 + x.topic_filter.len() + x.no_local as usize + x.retain_as_published as usize + x.retain_handling as usize + x.qos as usize).sum::<usize>() + props(&s.user_properties) + s.subscription_identifier.map(|_| 2).unwrap_or(0),
+        Pkt::Unsubscribe(u) => u.topic_filters.iter().map(|f| 4 + f.len()).sum::<usize>() + props(&u.user_properties),
+        Pkt::Disconnect(d) => opt(&d.reason_string) + opt(&d.server_reference) + props(&d.user_properties) + d.session_expiry.map(|_| 2).unwrap_or(0) + d.reason_code as usize,
+        _ => 0,
+    }
+}
+
+fn caps_weight(caps: &Caps) -> usize {
+    (2 - caps.max_qos.min(2)) as usize + !caps.retain as usize + !caps.wildcard as usize + !caps.shared as usize + !caps.subid as usize + (caps.max_packet_size != MAX_VBI) as usize
+}
+
+/// features of a topic / filter string, used for input classes and for "valid ... rejected" labels
+fn string_features(text: &str) -> (u32, String) {
+    let mut bits = 0u32; let mut words: Vec<&str> = Vec::new();
+    if text.is_empty() { bits |= 1; words.push("empty"); }
+    if text.split('/').any(|l| l == "+") { bits |= 2; words.push("single-level wildcard"); }
+    if text.split('/').any(|l| l == "#") { bits |= 4; words.push("multi-level wildcard"); }
+    if text.contains('+') || text.contains('#') { bits |= 8; }
+    if text.starts_with('$') { bits |= 16; words.push("leading $"); }
+    match share_kind(text) { Share::WellFormed => { bits |= 32; words.push("shared"); } Share::Malformed => { bits |= 64; words.push("malformed $share"); } Share::NotShared => {} }
+    if !text.is_empty() && text.split('/').any(|l| l.is_empty()) { bits |= 128; words.push("empty level"); }
+    if plain_filter_valid(text) { bits |= 256; }
+    if text.len() > 65535 { bits |= 512; words.push("too long"); }
+    if text.len() == 65535 { bits |= 1024; words.push("65535 bytes"); }
+    if words.is_empty() { words.push("plain"); }
+    (bits, words.join(", "))
+}
+
+fn derived_label(case: &Case) -> String {
+    match &case.pkt {
+        Pkt::Publish(p) => match &p.response_topic { Some(r) if case.family.contains("response") => format!("response topic: {}", string_features(r).1), _ => format!("topic: {}", string_features(&p.topic).1) },
+        Pkt::Subscribe(s) => format!("filter: {}", s.subscriptions.iter().map(|x| string_features(&x.topic_filter).1).collect::<Vec<_>>().join(" | ")),
+        Pkt::Unsubscribe(u) => format!("filter: {}", u.topic_filters.iter().map(|f| string_features(f).1).collect::<Vec<_>>().join(" | ")),
+        _ => case.family.to_string(),
+    }
+}
+
+fn len_class(n: usize) -> u8 { match n { 0 => 0, 1 => 1, 2..=65534 => 2, 65535 => 3, _ => 4 } }
+
+/// input class: everything the verdict can depend on, with strings reduced to their features
+fn input_class(case: &Case) -> u64 {
+    let mut h = std::collections::hash_map::DefaultHasher::new();
+    case.family.hash(&mut h);
+    case.caps.max_qos.hash(&mut h); case.caps.retain.hash(&mut h); case.caps.wildcard.hash(&mut h); case.caps.shared.hash(&mut h); case.caps.subid.hash(&mut h);
+    (case.caps.max_packet_size == MAX_VBI).hash(&mut h);
+    case.connect_se.hash(&mut h);
+    fn props(p: &VProps, h: &mut std::collections::hash_map::DefaultHasher) {
+        match p { None => 0u8.hash(h), Some(l) => { l.len().hash(h); for (n, v) in l { len_class(n.len()).hash(h); len_class(v.len()).hash(h); } } }
+    }
+    match &case.pkt {
+        Pkt::Publish(p) => {
+            1u8.hash(&mut h); string_features(&p.topic).0.hash(&mut h); p.qos.hash(&mut h); p.retain.hash(&mut h); p.dup.hash(&mut h); p.topic_alias.hash(&mut h); p.payload_format.hash(&mut h);
+            p.response_topic.as_ref().map(|s| string_features(s).0).hash(&mut h); p.content_type.as_ref().map(|s| len_class(s.len())).hash(&mut h); p.correlation_data.as_ref().map(|s| len_class(s.len())).hash(&mut h);
+            p.subscription_identifiers.as_ref().map(|v| v.len()).hash(&mut h); p.message_expiry.is_some().hash(&mut h); p.payload.as_ref().map(|b| len_class(b.len())).hash(&mut h); props(&p.user_properties, &mut h);
+        }
+        Pkt::Subscribe(s) => {
+            2u8.hash(&mut h); s.subscriptions.len().hash(&mut h);
+            for x in &s.subscriptions { string_features(&x.topic_filter).0.hash(&mut h); x.no_local.hash(&mut h); x.qos.hash(&mut h); x.retain_as_published.hash(&mut h); x.retain_handling.hash(&mut h); }
+            s.subscription_identifier.hash(&mut h); props(&s.user_properties, &mut h);
+        }
+        Pkt::Unsubscribe(u) => { 3u8.hash(&mut h); u.topic_filters.len().hash(&mut h); for f in &u.topic_filters { string_features(f).0.hash(&mut h); } props(&u.user_properties, &mut h); }
+        Pkt::Disconnect(d) => { 4u8.hash(&mut h); d.reason_code.hash(&mut h); d.session_expiry.hash(&mut h); d.reason_string.as_ref().map(|s| len_class(s.len())).hash(&mut h); d.server_reference.as_ref().map(|s| len_class(s.len())).hash(&mut h); props(&d.user_properties, &mut h); }
+        _ => {}
+    }
+    h.finish()
+}
+
+// ------------------------------------------------------------------------------------------------
+// Accumulator
+// ------------------------------------------------------------------------------------------------
+
+struct Found { key: (usize, String), violation: Violation, body: Value }
+
+#[derive(Default)]
+struct Acc {
+    run: u64,
+    judged: u64,
+    not_judged: BTreeMap<&'static str, u64>,
+    stage: BTreeMap<&'static str, u64>,
+    by_operation: BTreeMap<&'static str, u64>,
+    by_family: BTreeMap<&'static str, u64>,
+    verdict_outcome: BTreeMap<(&'static str, &'static str), u64>,
+    rule_stage: BTreeMap<Rule, [u64; 3]>,
+    err_kinds: BTreeMap<String, u64>,
+    distinct: HashSet<u64>,
+    found: BTreeMap<(String, String), Found>,
+    multi: BTreeMap<Vec<Rule>, Found>,
+    samples: BTreeMap<(&'static str, &'static str, &'static str), (usize, String, Value)>,
+    accepted_by_rule_and_type: BTreeMap<String, u64>,
+}
+
+impl Acc {
+    fn keep(slot: &mut BTreeMap<(String, String), Found>, id: (String, String), candidate_weight: usize, make: impl FnOnce() -> Found) {
+        match slot.get(&id) {
+            Some(existing) if existing.key.0 < candidate_weight => {}
+            Some(existing) => { let found = make(); if found.key < existing.key { slot.insert(id, found); } }
+            None => { slot.insert(id, make()); }
+        }
+    }
+
+    fn merge(mut self, other: Acc) -> Acc {
+        self.run += other.run; self.judged += other.judged;
+        for (k, v) in other.not_judged { *self.not_judged.entry(k).or_insert(0) += v; }
+        for (k, v) in other.stage { *self.stage.entry(k).or_insert(0) += v; }
+        for (k, v) in other.by_operation { *self.by_operation.entry(k).or_insert(0) += v; }
+        for (k, v) in other.by_family { *self.by_family.entry(k).or_insert(0) += v; }
+        for (k, v) in other.verdict_outcome { *self.verdict_outcome.entry(k).or_insert(0) += v; }
+        for (k, v) in other.rule_stage { let e = self.rule_stage.entry(k).or_insert([0; 3]); for i in 0..3 { e[i] += v[i]; } }
+        for (k, v) in other.err_kinds { *self.err_kinds.entry(k).or_insert(0) += v; }
+        for (k, v) in other.accepted_by_rule_and_type { *self.accepted_by_rule_and_type.entry(k).or_insert(0) += v; }
+        self.distinct.extend(other.distinct);
+        for (id, found) in other.found { match self.found.get(&id) { Some(existing) if existing.key <= found.key => {} _ => { self.found.insert(id, found); } } }
+        for (id, found) in other.multi { match self.multi.get(&id) { Some(existing) if existing.key <= found.key => {} _ => { self.multi.insert(id, found); } } }
+        for (id, sample) in other.samples { match self.samples.get(&id) { Some(existing) if (existing.0, &existing.1) <= (sample.0, &sample.1) => {} _ => { self.samples.insert(id, sample); } } }
+        self
+    }
+}
+
+fn make_found(case: &Case, verdict: &Verdict, outcome: &Outcome, property: &str, signature: &str, detail: String, w: usize) -> Found {
+    let description = describe(case);
+    let text = description.to_string();
+    let violation = Violation::new(property, signature, detail);
+    let body = json!({
+        "kind": "validation-case",
+        "property": property,
+        "signature": signature,
+        "detail": violation.detail,
+        "case": description,
+        "reference_verdict": verdict_text(verdict),
+        "library_outcome": outcome.text(),
+        "how_to_replay": "gneiss_mqtt::verif::validate_submission(packet with packet_id 0); if Ok, validate_at_send(packet with packet_id 1 for SUBSCRIBE/UNSUBSCRIBE/QoS>0 PUBLISH, Some(&NegotiatedSettings{connack values, topic_alias_maximum_to_server 65535}), &ConnectOptions{session expiry as given}, skip_topic=false, alias=None); strings given as {len, repeat_of} are that character repeated",
+    });
+    Found { key: (w, text), violation, body }
+}
+
+fn verdict_text(verdict: &Verdict) -> String {
+    match verdict {
+        Verdict::Violates(rules) => format!("violates: {}", rules.iter().map(|r| r.name()).collect::<Vec<_>>().join(", ")),
+        Verdict::Conforms => "conforms".into(),
+        Verdict::NotJudged(reason) => format!("not judged: {}", reason),
+    }
+}
+
+fn run_case(case: &Case, env: &Env, acc: &mut Acc) {
+    let verdict = reference(case);
+    let outcome = library(case, env);
+    let op = op_name(&case.pkt);
+    let w = weight(&case.pkt) * 8 + caps_weight(&case.caps);
+
+    acc.run += 1;
+    *acc.by_operation.entry(op).or_insert(0) += 1;
+    *acc.by_family.entry(case.family).or_insert(0) += 1;
+    match &outcome { Outcome::RejectedAtSubmission(kind) | Outcome::RejectedAtSend(kind) => { *acc.err_kinds.entry(format!("{} {:?}", outcome.stage(), kind)).or_insert(0) += 1; } _ => {} }
+
+    let verdict_kind: &'static str = match &verdict { Verdict::Violates(_) => "violates", Verdict::Conforms => "conforms", Verdict::NotJudged(_) => "not_judged" };
+    *acc.verdict_outcome.entry((verdict_kind, outcome.stage())).or_insert(0) += 1;
+
+    // samples: smallest case of every (operation, verdict, outcome) combination
+    {
+        let id = (op, verdict_kind, outcome.stage());
+        let replace = match acc.samples.get(&id) { None => true, Some(existing) => w <= existing.0 };
+        if replace {
+            let description = describe(case); let text = description.to_string();
+            let better = match acc.samples.get(&id) { None => true, Some(existing) => (w, &text) < (existing.0, &existing.1) };
+            if better { acc.samples.insert(id, (w, text, json!({"case": description, "reference": verdict_text(&verdict), "library": outcome.text()}))); }
+        }
+    }
+
+    if let Outcome::Panic(function, message) = &outcome {
+        let location = message.split(": ").next().unwrap_or("?").to_string();
+        let signature = format!("panic {} in {}", location, function);
+        Acc::keep(&mut acc.found, ("C11".to_string(), signature.clone()), w, || make_found(case, &verdict, &outcome, "C11", &signature, format!("{} panicked: {}", function, message), w));
+    }
+
+    match &verdict {
+        Verdict::NotJudged(reason) => { *acc.not_judged.entry(*reason).or_insert(0) += 1; return; }
+        _ => {}
+    }
+    acc.judged += 1;
+    *acc.stage.entry(outcome.stage()).or_insert(0) += 1;
+
+    let mut h = std::collections::hash_map::DefaultHasher::new();
+    input_class(case).hash(&mut h); verdict_kind.hash(&mut h); if let Verdict::Violates(rules) = &verdict { rules.hash(&mut h); } outcome.stage().hash(&mut h);
+    acc.distinct.insert(h.finish());
+
+    match (&verdict, &outcome) {
+        (Verdict::Violates(rules), _) => {
+            let slot = match &outcome { Outcome::RejectedAtSubmission(_) => 0, Outcome::RejectedAtSend(_) => 1, _ => 2 };
+            for rule in rules { acc.rule_stage.entry(*rule).or_insert([0; 3])[slot] += 1; }
+            if outcome == Outcome::Accepted {
+                for rule in rules { *acc.accepted_by_rule_and_type.entry(format!("{} {}", rule.name(), op)).or_insert(0) += 1; }
+                if rules.len() == 1 {
+                    let signature = rules[0].transmitted_signature(op);
+                    Acc::keep(&mut acc.found, ("C16".to_string(), signature.clone()), w, || {
+                        let detail = format!("reference: {} ({}); library: {}; smallest case: {}", rules[0].name(), if rules[0].is_static() { "static rule of the specification" } else { "limit announced by the server / connection dependent" }, outcome.text(), describe(case));
+                        make_found(case, &verdict, &outcome, "C16", &signature, detail, w)
+                    });
+                } else {
+                    let signature = rules.iter().map(|r| r.transmitted_signature(op)).collect::<Vec<_>>().join(" AND ");
+                    let replace = match acc.multi.get(rules) { None => true, Some(existing) => w <= existing.key.0 };
+                    if replace {
+                        let detail = format!("reference: {}; library: {}; smallest case: {}", verdict_text(&verdict), outcome.text(), describe(case));
+                        let found = make_found(case, &verdict, &outcome, "C16", &signature, detail, w);
+                        let better = match acc.multi.get(rules) { None => true, Some(existing) => found.key < existing.key };
+                        if better { acc.multi.insert(rules.clone(), found); }
+                    }
+                }
+            }
+        }
+        (Verdict::Conforms, Outcome::RejectedAtSubmission(_)) | (Verdict::Conforms, Outcome::RejectedAtSend(_)) => {
+            let label = case.label.map(|s| s.to_string()).unwrap_or_else(|| derived_label(case));
+            let stage = if matches!(outcome, Outcome::RejectedAtSubmission(_)) { "at submission" } else { "at send time" };
+            let signature = format!("valid {} rejected {} [{}]", op, stage, label);
+            Acc::keep(&mut acc.found, ("C16".to_string(), signature.clone()), w, || {
+                let detail = format!("reference: conforms; library: {}; smallest case: {}", outcome.text(), describe(case));
+                make_found(case, &verdict, &outcome, "C16", &signature, detail, w)
+            });
+        }
+        _ => {}
+    }
+}
+
+// ------------------------------------------------------------------------------------------------
+// Input families
+// ------------------------------------------------------------------------------------------------
+
+fn digits(mut index: usize, radices: &[usize]) -> Vec<usize> {
+    let mut out = Vec::with_capacity(radices.len());
+    for radix in radices { out.push(index % radix); index /= radix; }
+    out
+}
+
+fn publish(topic: &str) -> VPublish { VPublish { topic: topic.to_string(), ..Default::default() } }
+
+fn subscription(filter: &str) -> VSubscription { VSubscription { topic_filter: filter.to_string(), qos: 1, ..Default::default() } }
+
+fn case(family: &'static str, label: Option<&'static str>, pkt: Pkt, caps: Caps) -> Case {
+    Case { family, label, pkt, caps, connect_se: None, pre_not_judged: None, wire_len: None }
+}
+
+/// every word of length <= max_tokens over TOKENS, index -> word
+struct Words { offsets: Vec<usize> }
+
+impl Words {
+    fn new(max_tokens: usize) -> Words {
+        let mut offsets = vec![0usize];
+        for k in 0..=max_tokens { let last = *offsets.last().unwrap(); offsets.push(last + TOKENS.len().pow(k as u32)); }
+        Words { offsets }
+    }
+    fn count(&self) -> usize { *self.offsets.last().unwrap() }
+    fn word(&self, index: usize) -> String {
+        let k = self.offsets.iter().position(|o| *o > index).unwrap() - 1;
+        let mut rest = index - self.offsets[k];
+        let mut tokens = Vec::with_capacity(k);
+        for _ in 0..k { tokens.push(TOKENS[rest % TOKENS.len()]); rest /= TOKENS.len(); }
+        tokens.concat()
+    }
+}
+
+fn word_cases(word: &str, out: &mut Vec<Case>) {
+    out.push(case("word grid: publish topic", None, Pkt::Publish(publish(word)), ALL_CAPS));
+    out.push(case("word grid: publish response topic", None, Pkt::Publish(VPublish { response_topic: Some(word.to_string()), ..publish("t") }), ALL_CAPS));
+    for bits in 0..4u8 {
+        let caps = Caps { wildcard: bits & 1 == 0, shared: bits & 2 == 0, ..ALL_CAPS };
+        out.push(case("word grid: unsubscribe filter x capabilities", None, Pkt::Unsubscribe(VUnsubscribe { topic_filters: vec![word.to_string()], ..Default::default() }), caps));
+    }
+    for bits in 0..32u8 {
+        let caps = Caps { wildcard: bits & 1 == 0, shared: bits & 2 == 0, subid: bits & 4 == 0, ..ALL_CAPS };
+        let subscribe = VSubscribe {
+            subscriptions: vec![VSubscription { no_local: bits & 16 != 0, ..subscription(word) }],
+            subscription_identifier: if bits & 8 != 0 { Some(1) } else { None },
+            ..Default::default()
+        };
+        out.push(case("word grid: subscribe filter x capabilities x subscription identifier x no_local", None, Pkt::Subscribe(subscribe), caps));
+    }
+}
+
+/// user property lists: None, Some([]), one property (16 length combinations), two properties (256)
+const PROPS_VARIANTS: usize = 2 + 16 + 256;
+
+fn props_variant(index: usize) -> VProps {
+    let make = |n: usize, v: usize| ("n".repeat(LENS[n]), "v".repeat(LENS[v]));
+    match index {
+        0 => None,
+        1 => Some(vec![]),
+        2..=17 => { let i = index - 2; Some(vec![make(i % 4, i / 4)]) }
+        _ => { let i = index - 18; Some(vec![make(i % 4, (i / 4) % 4), make((i / 16) % 4, i / 64)]) }
+    }
+}
+
+fn opt_len_string(index: usize, fill: &str) -> Option<String> { if index == 0 { None } else { Some(fill.repeat(LENS[index - 1])) } }
+
+struct Family {
+    name: &'static str,
+    count: usize,
+    build: Box<dyn Fn(usize, &mut Vec<Case>) + Sync + Send>,
+}
+
+fn size_family(report_notes: &mut Vec<Value>) -> Family {
+    // maximum packet size: L is the reference codec's size of the packet with the packet id bound
+    let mut bases: Vec<(&'static str, Pkt)> = Vec::new();
+    let payload_of = |n: usize| Some(vec![b'p'; n]);
+    for qos in 0..=2u8 { bases.push(("publish small", Pkt::Publish(VPublish { qos, payload: payload_of(3), ..publish("a/b") }))); }
+    bases.push(("publish no payload", Pkt::Publish(publish("a"))));
+    bases.push(("publish with properties", Pkt::Publish(VPublish { qos: 1, retain: true, payload: payload_of(10), payload_format: Some(1), message_expiry: Some(60), response_topic: Some("r/t".into()), correlation_data: Some(vec![0, 255, 7]), content_type: Some("text/plain".into()), user_properties: Some(vec![("k".into(), "v".into()), ("".into(), "".into())]), ..publish("a/b/c") })));
+    // remaining length exactly at the variable byte integer boundaries (topic "a", QoS 0, no properties: remaining = 4 + payload)
+    for remaining in [127usize, 128, 16383, 16384, 2097151, 2097152] { bases.push(("publish at remaining-length boundary", Pkt::Publish(VPublish { payload: payload_of(remaining - 4), ..publish("a") }))); }
+    // property length at its 127/128 boundary
+    for n in [118usize, 119, 120] { bases.push(("publish at property-length boundary", Pkt::Publish(VPublish { qos: 2, content_type: Some("c".repeat(n)), user_properties: Some(vec![("a".into(), "b".into())]), ..publish("t") }))); }
+    bases.push(("subscribe one", Pkt::Subscribe(VSubscribe { subscriptions: vec![subscription("a/b")], ..Default::default() })));
+    bases.push(("subscribe two + identifier + property", Pkt::Subscribe(VSubscribe { subscriptions: vec![subscription("a/+"), VSubscription { qos: 2, retain_as_published: true, retain_handling: 2, ..subscription("$share/g/x/#") }], subscription_identifier: Some(MAX_VBI), user_properties: Some(vec![("k".into(), "v".into())]) , ..Default::default() })));
+    for n in [119usize, 120, 121] { bases.push(("subscribe at remaining-length boundary", Pkt::Subscribe(VSubscribe { subscriptions: vec![subscription(&"f".repeat(n))], subscription_identifier: Some(200), ..Default::default() }))); }
+    bases.push(("unsubscribe one", Pkt::Unsubscribe(VUnsubscribe { topic_filters: vec!["a/b".into()], ..Default::default() })));
+    bases.push(("unsubscribe two + property", Pkt::Unsubscribe(VUnsubscribe { topic_filters: vec!["a/#".into(), "+".into()], user_properties: Some(vec![("name".into(), "value".into())]), ..Default::default() })));
+    for n in [121usize, 122, 123] { bases.push(("unsubscribe at remaining-length boundary", Pkt::Unsubscribe(VUnsubscribe { topic_filters: vec!["f".repeat(n)], ..Default::default() }))); }
+    bases.push(("disconnect plain", Pkt::Disconnect(VDisconnect::default())));
+    bases.push(("disconnect reason 4", Pkt::Disconnect(VDisconnect { reason_code: 4, ..Default::default() })));
+    bases.push(("disconnect with properties", Pkt::Disconnect(VDisconnect { reason_code: 4, session_expiry: Some(0), reason_string: Some("bye".into()), user_properties: Some(vec![("k".into(), "v".into())]), server_reference: Some("other".into()) })));
+    for n in [121usize, 122, 123] { bases.push(("disconnect at remaining-length boundary", Pkt::Disconnect(VDisconnect { reason_string: Some("r".repeat(n)), ..Default::default() }))); }
+
+    // L = number of bytes the packet really occupies on the wire = bytes produced by the library's own
+    // encoder for the packet with its packet id bound (an observation of the transmitted bytes, not the
+    // library's length computation).  The reference codec's canonical size is measured as well; where the
+    // two differ (the library legally or illegally encodes the packet differently) the difference is
+    // listed in size_oracle_notes and the case is judged against the bytes really transmitted.
+    let mut prepared: Vec<(&'static str, Pkt, Option<u32>)> = Vec::new();
+    for (name, pkt) in bases {
+        let at_send = bound(&pkt);
+        let reference_len = refcodec::encode(&at_send, false).ok().map(|bytes| bytes.len());
+        let library_len = encode(&at_send, false, false, None, &[reference_len.unwrap_or(4096) + 64], 64).ok().filter(|o| o.complete).map(|o| o.chunks.iter().map(|c| c.len()).sum::<usize>());
+        if library_len != reference_len { report_notes.push(json!({"base": name, "packet": describe_pkt(&pkt), "reference_codec_size": reference_len, "library_encoder_size": library_len, "judged_against": "library encoder output (bytes really transmitted)"})); }
+        prepared.push((name, pkt, library_len.map(|l| l as u32)));
+    }
+    let count = prepared.len() * 4;
+    Family { name: "maximum packet size: L-1, L, L+1, 268435455", count, build: Box::new(move |index, out| {
+        let (_name, pkt, len) = &prepared[index / 4];
+        let l = len.unwrap_or(2);
+        let (limit, label) = match index % 4 { 0 => (l - 1, "maximum packet size L-1"), 1 => (l, "maximum packet size exactly L"), 2 => (l + 1, "maximum packet size L+1"), _ => (MAX_VBI, "maximum packet size 268435455") };
+        let mut c = case("maximum packet size: L-1, L, L+1, 268435455", Some(label), pkt.clone(), Caps { max_packet_size: limit, ..ALL_CAPS });
+        c.wire_len = *len;
+        if len.is_none() { c.pre_not_judged = Some("library encoder could not encode the base packet"); }
+        out.push(c);
+    }) }
+}
+
+/// the task asks for 0..=5 (quick) / 0..=6 (thorough); both tiers go one token further because it is cheap
+fn max_tokens(tier: Tier) -> usize { if tier == Tier::Quick { 6 } else { 7 } }
+
+fn families(tier: Tier, notes: &mut Vec<Value>) -> Vec<Family> {
+    let mut list: Vec<Family> = Vec::new();
+
+    // F1 words over the token alphabet
+    let words = Words::new(max_tokens(tier));
+    list.push(Family { name: "word grid", count: words.count(), build: Box::new(move |index, out| { let word = words.word(index); word_cases(&word, out); }) });
+
+    // F2 publish: qos x maximum qos x retain x retain available x alias x payload format x dup x expiry x payload
+    let radices = [3usize, 3, 2, 2, 4, 3, 2, 2, 3];
+    list.push(Family { name: "publish qos/retain/alias/format grid", count: radices.iter().product(), build: Box::new(move |index, out| {
+        let d = digits(index, &radices);
+        let p = VPublish {
+            qos: d[0] as u8, retain: d[2] == 1, topic_alias: [None, Some(0), Some(1), Some(65535)][d[4]], payload_format: [None, Some(0), Some(1)][d[5]], dup: d[6] == 1,
+            message_expiry: [None, Some(0)][d[7]], payload: [None, Some(vec![]), Some(b"hi".to_vec())][d[8]].clone(), ..publish("a/b")
+        };
+        out.push(case("publish qos/retain/alias/format grid", Some("publish qos x maximum qos x retain x retain available x alias x payload format x dup x expiry x payload"), Pkt::Publish(p), Caps { max_qos: d[1] as u8, retain: d[3] == 1, ..ALL_CAPS }));
+    }) });
+
+    // F2b publish with user-set subscription identifiers
+    list.push(Family { name: "publish subscription identifiers", count: 4, build: Box::new(|index, out| {
+        let identifiers = [Some(vec![]), Some(vec![1]), Some(vec![1, MAX_VBI]), Some(vec![0])][index].clone();
+        out.push(case("publish subscription identifiers", Some("publish with user-set subscription identifiers"), Pkt::Publish(VPublish { subscription_identifiers: identifiers, qos: 1, ..publish("a") }), ALL_CAPS));
+    }) });
+
+    // F3 publish field lengths
+    let others: Vec<[usize; 3]> = (0..125).map(|i| [i % 5, (i / 5) % 5, i / 25]).collect();
+    let others_count = others.len();
+    list.push(Family { name: "publish field lengths", count: 4 * others_count * PROPS_VARIANTS, build: Box::new(move |index, out| {
+        let d = digits(index, &[4, others_count, PROPS_VARIANTS]);
+        let o = others[d[1]];
+        let p = VPublish {
+            topic: "t".repeat(LENS[d[0]]), qos: 1, response_topic: opt_len_string(o[0], "r"), content_type: opt_len_string(o[1], "c"),
+            correlation_data: opt_len_string(o[2], "d").map(|s| s.into_bytes()), user_properties: props_variant(d[2]), ..Default::default()
+        };
+        out.push(case("publish field lengths", Some("publish with every string/binary field at most 65535 bytes"), Pkt::Publish(p), ALL_CAPS));
+    }) });
+
+    // F4 subscribe structure
+    const FILTERS: [&str; 7] = ["a", "a/#", "+/b", "$share/g/a", "a#", "", "#/a"];
+    let filter_lists: Vec<Vec<&'static str>> = {
+        let mut v: Vec<Vec<&'static str>> = vec![vec![]];
+        for a in FILTERS { v.push(vec![a]); }
+        for a in FILTERS { for b in FILTERS { v.push(vec![a, b]); } }
+        v
+    };
+    let lists = filter_lists.clone();
+    let radices = [lists.len(), 5usize, 2, 2, 2, 3, 2];
+    list.push(Family { name: "subscribe structure", count: radices.iter().product(), build: Box::new(move |index, out| {
+        let d = digits(index, &radices);
+        let (qos, rap, rh) = [(0u8, false, 0u8), (1, true, 1), (2, false, 2)][d[5]];
+        let s = VSubscribe {
+            subscriptions: lists[d[0]].iter().map(|f| VSubscription { topic_filter: f.to_string(), qos, no_local: d[6] == 1, retain_as_published: rap, retain_handling: rh }).collect(),
+            subscription_identifier: [None, Some(0), Some(1), Some(MAX_VBI), Some(MAX_VBI + 1)][d[1]], ..Default::default()
+        };
+        out.push(case("subscribe structure", Some("subscribe with 1-2 valid filters, identifier in 1..=268435455 or absent"), Pkt::Subscribe(s), Caps { subid: d[2] == 0, wildcard: d[3] == 0, shared: d[4] == 0, ..ALL_CAPS }));
+    }) });
+
+    // F5 subscribe lengths
+    let radices = [3usize, PROPS_VARIANTS, 2];
+    list.push(Family { name: "subscribe field lengths", count: radices.iter().product(), build: Box::new(move |index, out| {
+        let d = digits(index, &radices);
+        let s = VSubscribe { subscriptions: vec![subscription(&"f".repeat([1, 65535, 65536][d[0]]))], user_properties: props_variant(d[1]), subscription_identifier: [None, Some(1)][d[2]], ..Default::default() };
+        out.push(case("subscribe field lengths", Some("subscribe with every string at most 65535 bytes"), Pkt::Subscribe(s), ALL_CAPS));
+    }) });
+
+    // F6 unsubscribe structure
+    let lists = filter_lists.clone();
+    let radices = [lists.len(), 2usize, 2];
+    list.push(Family { name: "unsubscribe structure", count: radices.iter().product(), build: Box::new(move |index, out| {
+        let d = digits(index, &radices);
+        let u = VUnsubscribe { topic_filters: lists[d[0]].iter().map(|f| f.to_string()).collect(), ..Default::default() };
+        out.push(case("unsubscribe structure", Some("unsubscribe with 1-2 valid filters"), Pkt::Unsubscribe(u), Caps { wildcard: d[1] == 0, shared: d[2] == 0, ..ALL_CAPS }));
+    }) });
+
+    // F7 unsubscribe lengths
+    let radices = [3usize, PROPS_VARIANTS];
+    list.push(Family { name: "unsubscribe field lengths", count: radices.iter().product(), build: Box::new(move |index, out| {
+        let d = digits(index, &radices);
+        let u = VUnsubscribe { topic_filters: vec!["f".repeat([1, 65535, 65536][d[0]])], user_properties: props_variant(d[1]), ..Default::default() };
+        out.push(case("unsubscribe field lengths", Some("unsubscribe with every string at most 65535 bytes"), Pkt::Unsubscribe(u), ALL_CAPS));
+    }) });
+
+    // F8 disconnect
+    let radices = [5usize, 5, 3, 3, 2, 5];
+    list.push(Family { name: "disconnect grid", count: radices.iter().product(), build: Box::new(move |index, out| {
+        let d = digits(index, &radices);
+        let properties = match d[5] { 0 => None, 1 => Some(vec![("n".to_string(), "v".to_string())]), 2 => Some(vec![("n".repeat(65535), "v".repeat(65535))]), 3 => Some(vec![("n".repeat(65536), "v".to_string())]), _ => Some(vec![("n".to_string(), "v".repeat(65536))]) };
+        let disconnect = VDisconnect { reason_code: [0u8, 4][d[4]], session_expiry: [None, Some(0), Some(5)][d[2]], reason_string: opt_len_string(d[0], "r"), server_reference: opt_len_string(d[1], "s"), user_properties: properties };
+        let mut c = case("disconnect grid", Some("disconnect with strings at most 65535 bytes and a session expiry allowed by the CONNECT"), Pkt::Disconnect(disconnect), ALL_CAPS);
+        c.connect_se = [None, Some(0), Some(10)][d[3]];
+        out.push(c);
+    }) });
+    list.push(Family { name: "disconnect user property lengths", count: PROPS_VARIANTS, build: Box::new(|index, out| {
+        out.push(case("disconnect user property lengths", Some("disconnect with user properties at most 65535 bytes"), Pkt::Disconnect(VDisconnect { user_properties: props_variant(index), ..Default::default() }), ALL_CAPS));
+    }) });
+
+    // F9 maximum packet size
+    list.push(size_family(notes));
+    list
+}
+
+// ------------------------------------------------------------------------------------------------
+
+/// The reference grammar against the examples the specification itself gives (4.7.1.2, 4.7.1.3, 4.8.2).
+fn reference_self_test() -> Vec<String> {
+    let mut problems = Vec::new();
+    for (filter, valid) in [("sport/tennis/player1/#", true), ("sport/#", true), ("#", true), ("sport/tennis/#", true), ("sport/tennis#", false), ("sport/tennis/#/ranking", false),
+        ("+", true), ("+/tennis/#", true), ("sport+", false), ("sport/+/player1", true), ("/finance", true), ("+/+", true), ("/+", true), ("", false), ("/", true), ("$SYS/#", true), ("a//b", true)] {
+        if plain_filter_valid(filter) != valid { problems.push(format!("reference grammar self-test: filter {:?} should be {}", filter, if valid { "valid" } else { "invalid" })); }
+    }
+    for (filter, kind) in [("$share/consumer1/sport/tennis/+", Share::WellFormed), ("$share/consumer2/sport/tennis/+", Share::WellFormed), ("$share/consumer1//finance", Share::WellFormed), ("$share/consumer1/#", Share::WellFormed),
+        ("$share/", Share::Malformed), ("$share//a", Share::Malformed), ("$share/+/a", Share::Malformed), ("$share/a", Share::Malformed), ("$share/a/", Share::Malformed), ("$share/a#/b", Share::Malformed),
+        ("$share", Share::NotShared), ("$shareab", Share::NotShared), ("$shared/a/b", Share::NotShared), ("a/$share/b/c", Share::NotShared)] {
+        if share_kind(filter) != kind { problems.push(format!("reference grammar self-test: {:?} should be {:?}", filter, kind)); }
+    }
+    let mut rules = BTreeSet::new();
+    let verdict = judge_filter("$share/g/a/+", &mut rules);
+    if !(rules.is_empty() && verdict.shared && verdict.wildcard && !verdict.ambiguous_share) { problems.push("reference grammar self-test: $share/g/a/+ should be a shared wildcard subscription".into()); }
+    let verdict = judge_filter("$share/+/a", &mut rules);
+    if !(rules.is_empty() && verdict.ambiguous_share) { problems.push("reference grammar self-test: $share/+/a should be ambiguous".into()); }
+    problems
+}
+
+pub fn run(tier: Tier) -> i32 {
+    let mut report = Report::new("C16", tier, "exploration");
+    report.machinery_errors.extend(reference_self_test());
+    let known = KnownFindings::load();
+    let env = Env::new();
+    let pool = rayon::ThreadPoolBuilder::new().num_threads(threads()).build().unwrap();
+
+    let mut notes: Vec<Value> = Vec::new();
+    let families = families(tier, &mut notes);
+    let mut total = Acc::default();
+    let mut family_rows: Vec<Value> = Vec::new();
+    for family in &families {
+        let started = std::time::Instant::now();
+        let acc = pool.install(|| {
+            (0..family.count).into_par_iter().with_min_len(16)
+                .fold(|| (Acc::default(), Vec::<Case>::new()), |(mut acc, mut buffer), index| {
+                    buffer.clear();
+                    (family.build)(index, &mut buffer);
+                    for case in &buffer { run_case(case, &env, &mut acc); }
+                    (acc, buffer)
+                })
+                .map(|(acc, _)| acc)
+                .reduce(Acc::default, Acc::merge)
+        });
+        family_rows.push(json!({"family": family.name, "generator_indices": family.count, "cases_run": acc.run, "judged": acc.judged, "wall_s": (started.elapsed().as_secs_f64() * 100.0).round() / 100.0}));
+        total = total.merge(acc);
+    }
+
+    // violations
+    let mut single_rule_signatures: BTreeSet<String> = BTreeSet::new();
+    for ((_, signature), _) in &total.found { single_rule_signatures.insert(signature.clone()); }
+    let mut all_found: Vec<Found> = Vec::new();
+    let mut multi_explained = 0u64;
+    let found = std::mem::take(&mut total.found);
+    for (_, f) in found { all_found.push(f); }
+    let multi = std::mem::take(&mut total.multi);
+    for (rules, f) in multi {
+        let op = f.body["case"]["packet"]["type"].as_str().unwrap_or("").to_string();
+        if rules.iter().all(|r| single_rule_signatures.contains(&r.transmitted_signature(&op))) { multi_explained += 1; } else { all_found.push(f); }
+    }
+    for f in all_found {
+        if let Some(k) = known.matches(&f.violation) {
+            report.known_hit.insert((f.violation.property.clone(), format!("{} [{}]", k.what_fails, k.signature)));
+            continue;
+        }
+        let replay = write_replay(&f.violation.property, &f.violation.signature, &f.body);
+        report.violations.push((f.violation, replay));
+    }
+
+    // evidence
+    let stage = |name: &str| total.stage.get(name).copied().unwrap_or(0);
+    report.set("evaluations", json!(total.judged));
+    report.set("cases_run", json!(total.run));
+    report.set("distinct_nontrivial", json!(total.distinct.len()));
+    report.set("rule", json!("every case of the finite input grid (see families) is one evaluation: reference verdict (independent predicate from MQTT 5 sections 1.5.4, 3.2.2.3, 3.3, 3.8, 3.10, 3.14, 4.7, 4.8) compared with validate_submission + validate_at_send. evaluations = cases JUDGED (not-judged cases are run, checked for panics and counted separately). distinct_nontrivial = size of a hash set of (input class, reference verdict incl. rule set, library stage) where the input class keeps operation type, CONNACK capability values, numeric fields, list sizes and for every string only its features (empty / wildcard levels / leading $ / shared well- or malformed / empty level / grammar-valid / length class 0,1,2..65534,65535,>65535); every judged case is non-trivial (it reaches both the reference and the validators)"));
+    report.set("exhaustive", json!(true));
+    report.set("not_judged_ambiguous", json!(total.not_judged.values().sum::<u64>()));
+    report.set("not_judged_by_reason", json!(total.not_judged.iter().map(|(k, v)| (k.to_string(), json!(v))).collect::<serde_json::Map<String, Value>>()));
+    report.set("stage_counts", json!({"rejected_at_submission": stage("rejected_at_submission"), "rejected_at_send": stage("rejected_at_send"), "accepted": stage("accepted"), "panic": stage("panic")}));
+    report.set("verdict_x_outcome_all_cases", json!(total.verdict_outcome.iter().map(|((v, o), n)| (format!("{} / {}", v, o), json!(n))).collect::<serde_json::Map<String, Value>>()));
+    report.set("rule_enforcement_stage", json!(total.rule_stage.iter().map(|(rule, counts)| (rule.name(), json!({"kind": if rule.is_static() { "static" } else { "announced limit / connection dependent" }, "rejected_at_submission": counts[0], "rejected_at_send": counts[1], "not_rejected": counts[2]}))).collect::<serde_json::Map<String, Value>>()));
+    report.set("violating_cases_accepted_by_rule_and_packet_type", json!(total.accepted_by_rule_and_type));
+    report.set("multi_rule_accepted_cases_explained_by_single_rule_violations", json!(multi_explained));
+    report.set("rejection_error_kinds", json!(total.err_kinds));
+    report.set("by_operation", json!(total.by_operation));
+    report.set("by_family", json!(total.by_family));
+    report.set("families", json!(family_rows));
+    report.set("size_oracle_notes", json!(notes));
+    report.set("token_alphabet", json!(TOKENS));
+    report.set("max_tokens_per_word", json!(max_tokens(tier)));
+    report.set("protocol_version", json!("MQTT 5 only"));
+    let mut samples: Vec<Value> = total.samples.iter().map(|((op, verdict, outcome), (_, _, value))| json!({"operation": op, "verdict": verdict, "outcome": outcome, "smallest": value})).collect();
+    samples.truncate(48);
+    report.set("samples", json!(samples));
+
+    report.assume("the decision procedure of the client for one operation is validate_submission (packet id 0) followed by validate_at_send (packet id bound to 1, negotiated settings of the connection, connect options, alias resolution of the default null resolver); the engine calling exactly these with exactly these arguments is covered by the engine checks, not here");
+    report.assume("MQTT 5 only: neither validator looks at the protocol mode");
+    report.assume("maximum packet size: L is the number of bytes the library's encoder really emits for the packet (what the server would count); the trusted reference codec's canonical size is measured next to it and every difference is listed in size_oracle_notes (wire-format differences are C02's business, they are not judged here)");
+    report.assume("filters beginning with $share/ that are not well-formed shared subscriptions but valid ordinary filters are run and counted, not judged (ambiguous between repository tests and spec); when they are also invalid as ordinary filters they are judged as violations");
+    report.assume("UNSUBSCRIBE of a wildcard/shared filter while the server announced the feature unavailable is not judged (spec only makes the SUBSCRIBE an error)");
+    report.assume("a Server Reference in a client DISCONNECT conforms (no normative prohibition); user-set Subscription Identifiers on a PUBLISH violate [MQTT-3.3.4-6] (an explicitly empty list is not judged); DUP=1 on a new PUBLISH violates [MQTT-3.3.1-1]; zero-length topic name and response topic violate [MQTT-4.7.3-1]");
+    report.assume("U+0000 and non-ASCII characters are outside the token alphabet: not run, not judged; topic alias values are only checked against 0 (alias maximum is C17, topic_alias_maximum_to_server fixed at 65535)");
+    report.assume("static rules are judged 'rejected by send time' (either stage); the stage is recorded in rule_enforcement_stage");
+    report.finish()
+}
